@@ -944,14 +944,15 @@ def run_count_check_fails_closed(chk: Check, ix) -> None:
     if not trues:
         raise AnalysisError("check_rvalue_count_in_assignment: no `return True` found")
     n = 0
-    for nd in g.nodes:
-        if nd.kind != "stmt" or nd.stmt is None or not isinstance(nd.stmt, ast.Expr):
-            continue
+    seen_reports: dict[str, int] = {}
+    for nd in sorted((x for x in g.nodes if x.kind == "stmt" and x.stmt is not None and isinstance(x.stmt, ast.Expr)), key=lambda x: x.stmt.lineno):
         reports = [c for c in nd.calls() if norm(c.func) == "self.fail" or norm(c.func).startswith("self.msg.")]
         if not reports:
             continue
         n += 1
-        key = f"check_rvalue_count_in_assignment: `{norm(reports[0].func)}(...)` at its {n}. report is followed by `return False`"
+        what = norm(reports[0].args[0])[:50] if reports[0].args else norm(reports[0].func)
+        seen_reports[what] = seen_reports.get(what, 0) + 1
+        key = f"check_rvalue_count_in_assignment: the report `{what}`{' #' + str(seen_reports[what]) if seen_reports[what] > 1 else ''} is followed by `return False`"
         reach = g.reachable([nd], labels_excluded=("exc",))
         if any(t in reach for t in trues):
             r20.violation(key, f.loc(nd.stmt), f"after `{norm(nd.stmt)[:70]}` a path reaches `return True`: the caller deals the tuple items out to the targets although the error says they do not fit (`x, y, *xs, z = rv` with `rv: tuple[int, *Ts, int, int]` gives `y` the type `*Ts`; `many(*(y, y))` then ends in INTERNAL ERROR)")
